@@ -160,7 +160,12 @@ Proof. exact (@clean_divide_zero_divisor). Qed.
 Print Assumptions C09_clean_divide_zero_divisor.
 (* the full statement; what is missing from the three theorems above is the zero-free NTT arm (pointwise division of the
    two codewords on the coset x * <w>, inverse transform, unscaling, unlift) *)
-Definition C09_clean_divide_full : Prop :=
+(* SUPERSEDED placeholders: C09_clean_divide_first_statement_superseded and C09_fpsi_newton_first_statement_superseded are the
+   statements as first written down; their size bounds admit inputs whose transform length is 2^32, which `ntt` rejects
+   (u32::try_from), so they are false as written (see C09_fpsi_newton_panics_at_full_domain_2_32 in props/C09b.v).  The
+   corrected statements are PROVED and pinned: C09_clean_divide, C09_clean_divide_exact_2p31 (below) and
+   C09_fpsi_newton_spec, C09_bfe_fpsi_newton, C09_xfe_fpsi_newton (props/C09b.v). *)
+Definition C09_clean_divide_first_statement_superseded : Prop :=
   forall cutoff dbg a d q0, (cutoff = CLEAN_DIVIDE_CUTOFF_THRESHOLD_PROD \/ cutoff = CLEAN_DIVIDE_CUTOFF_THRESHOLD_TEST) ->
   Forall canon a -> Forall canon d -> ~ pzero fp_field (map bden d) ->
   peq fp_field (map bden a) (pmul fp_field q0 (map bden d)) -> zlen a < 2 ^ 32 ->
@@ -231,7 +236,7 @@ Print Assumptions C09_fpsi_minimal_panics.
 (* formal_power_series_inverse_newton, PARTIAL: the constant case for every precision, and - under the C06 hypotheses on
    ntt / intt (ntt is the DFT at a root of order 2^l, intt its inverse, for l <= lmax), which enter through C07's
    `multiply` - every precision whose Newton rounds all run before the switch to the NTT domain
-   (num_rounds <= switch_point).  Not proved: the NTT-domain rounds (C09_fpsi_newton_full stays a Definition). *)
+   (num_rounds <= switch_point).  Not proved: the NTT-domain rounds (C09_fpsi_newton_first_statement_superseded stays a Definition). *)
 Theorem C09_fpsi_newton_constant : forall F K (o : fops F) (fk : fieldK K) ok den, field_ok o fk ok den ->
   forall ntt intt l n, Forall ok l -> poly_degree o l = 0 ->
   exists g, pdiv_fpsi_newton o ntt intt l n = Some g /\ Forall ok g /\ peq fk (pmul fk (map den l) (map den g)) (pone fk).
@@ -253,7 +258,7 @@ Theorem C09_fpsi_newton_partial : forall F K (o : fops F) (fk : fieldK K) ok den
             pmodx fk (Z.to_nat n) (pmul fk (map den (c0 :: cs)) (map den g)) (pone fk).
 Proof. exact (@fpsi_newton_std_dft). Qed.
 Print Assumptions C09_fpsi_newton_partial.
-Definition C09_fpsi_newton_full : Prop :=
+Definition C09_fpsi_newton_first_statement_superseded : Prop :=
   forall l n, Forall canon l -> 0 <= n -> n * Z.max 1 (poly_degree bfe_ops l) < 2 ^ 30 ->
   (exists c0 cs, l = c0 :: cs /\ bden c0 <> k0 fp_field) ->
   exists g, pdiv_fpsi_newton bfe_ops ntt_b intt_b l n = Some g /\ Forall canon g /\
@@ -361,15 +366,15 @@ Print Assumptions C09_clean_divide_ntt_arm.
    exact quotient - every cutoff (the production 1 << 9 and the cfg(test) 0 included), with and without debug assertions,
    divisors with the root 0, divisors vanishing on the evaluation coset, the zero dividend, stored leading zeros.
    Size bound: deg a < 2^31, i.e. the transform length next_power_of_two(deg + 1) <= 2^31 is one that `ntt` accepts.
-   (The placeholder C09_clean_divide_full above asks for zlen a < 2^32; for 2^31 <= deg a the transform length is 2^32,
-   which `ntt` rejects - `u32::try_from(x.len())` -, so that bound is too generous by one bit; C09_clean_divide_full_2p31
+   (The placeholder C09_clean_divide_first_statement_superseded above asks for zlen a < 2^32; for 2^31 <= deg a the transform length is 2^32,
+   which `ntt` rejects - `u32::try_from(x.len())` -, so that bound is too generous by one bit; C09_clean_divide_exact_2p31
    is the placeholder's statement with the bound 2^31.) *)
 Theorem C09_clean_divide : forall cutoff dbg a d q0, Forall canon a -> Forall canon d -> ~ pzero fp_field (map bden d) ->
   peq fp_field (map bden a) (pmul fp_field q0 (map bden d)) -> poly_degree bfe_ops a < 2 ^ 31 ->
   exists q, pdiv_clean_divide cutoff dbg a d = Some q /\ Forall canon q /\ peq fp_field (map bden q) q0.
 Proof. exact clean_divide_full. Qed.
 Print Assumptions C09_clean_divide.
-Theorem C09_clean_divide_full_2p31 :
+Theorem C09_clean_divide_exact_2p31 :
   forall cutoff dbg a d q0, (cutoff = CLEAN_DIVIDE_CUTOFF_THRESHOLD_PROD \/ cutoff = CLEAN_DIVIDE_CUTOFF_THRESHOLD_TEST) ->
   Forall canon a -> Forall canon d -> ~ pzero fp_field (map bden d) ->
   peq fp_field (map bden a) (pmul fp_field q0 (map bden d)) -> zlen a <= 2 ^ 31 ->
@@ -378,7 +383,7 @@ Proof.
   exact (fun cutoff dbg a d q0 _ Ha Hd NZ E Hl =>
            clean_divide_full cutoff dbg a d q0 Ha Hd NZ E (Z.lt_le_trans _ _ _ (degree_lt_len bfe_ops a) Hl)).
 Qed.
-Print Assumptions C09_clean_divide_full_2p31.
+Print Assumptions C09_clean_divide_exact_2p31.
 (* the hypotheses are satisfiable, on both sides of the fallback: the repaired witnesses above (divisor vanishing on the
    coset), and a division that goes through the zero-free arm under the cfg(test) cutoff (the quotient 5 + 7 X comes back
    with the padding of the transform length 4 as stored leading zeros) *)
